@@ -914,6 +914,25 @@ where
     }
 }
 
+/// The collector: aggregate shares that agree with each other but not with the aggregation parameter they
+/// are unsharded under (every wrong length, the other tree level) must be refused by `unshard`.
+fn unshard_refusals<V>(run: &Run, inst: &Inst<V>)
+where
+    V: Aggregator<32, 16> + Collector,
+    V::AggregateShare: From<Out<V>>,
+{
+    for (fi, (label, _)) in inst.foreign.iter().enumerate() {
+        run.count("evaluations", 1);
+        run.count("unshard_refusal_cases", 1);
+        let aggs: Vec<Agg<V>> = (0..2).map(|_| Agg::<V>::from((inst.mk_foreign)(fi))).collect();
+        match call("unshard", || inst.vdaf.unshard(&inst.param, aggs, 1)) {
+            Ok(Err(_)) => {}
+            Ok(Ok(r)) => run.fail(&format!("{}/unshard_accepts_foreign", inst.name), &format!("{}: unshard combined two aggregate shares of shape {label}, which does not fit the aggregation parameter, into {:?} instead of refusing them", inst.name, inst.res(&r)), json!({"instance": inst.name, "foreign": label})),
+            Err(m) => run.fail(&format!("{}/unshard_panic", inst.name), &format!("{}: unshard panicked on aggregate shares of shape {label}: {m}", inst.name), json!({"instance": inst.name, "foreign": label})),
+        }
+    }
+}
+
 fn main() {
     let run = Run::from_args("C13", Level::ModelChecking);
     let run = &run;
@@ -956,6 +975,13 @@ fn main() {
     large_batches(run, &prio3_inst(sumvec_case::<FieldV17>(1, 2, 1), 2, false));
     large_batches(run, &poplar_inst(3, 1, 2));
     large_batches(run, &poplar_inst(3, 2, 3));
+    for (bits, level, np) in [(1usize, 0usize, 1usize), (2, 0, 2), (2, 1, 2), (3, 1, 3), (3, 2, 1), (3, 2, 3), (258, 1, 3), (258, 257, 1)] {
+        unshard_refusals(run, &poplar_inst(bits, level, np));
+    }
+    unshard_refusals(run, &prio3_inst(histogram_case::<Field128>(3, 1), 3, false));
+    unshard_refusals(run, &prio3_inst(sumvec_case::<Field128>(255, 2, 2), 2, false));
+    unshard_refusals(run, &prio3_inst(count_case::<Field64>(), 1, false));
+    unshard_refusals(run, &prio2_inst(3));
     // all work items of all instances, heaviest first, over one pool of workers
     let mut items: Vec<(usize, Item)> = vec![];
     let mut batch_base: Vec<usize> = vec![];
